@@ -143,6 +143,25 @@ def tie(ctx, model_ok=True):
                                 if t is not None:
                                     load_terms.append(t)
                                     load_cases.append(c)
+                            # dumping: _yatiml_sweeten by the same rule, on the node built from the object's attributes
+                            if raise_at is None:
+                                obj = model.cls('C%d' % i)(**{'p%d' % j: j for j in range(i + 1)})
+                                dumps = yatiml.dumps_function(*model.registered_classes())
+                                for wrap in ('top', 'list', 'dict'):
+                                    model.log.clear()
+                                    try:
+                                        dumps(obj if wrap == 'top' else [obj] if wrap == 'list' else {'k': obj})
+                                        derr = None
+                                    except Exception as e:      # noqa
+                                        derr = e
+                                    strace = [e[1] for e in model.log if e[0] == 'sweeten']
+                                    res['evaluations'] += 1
+                                    swant = [x for x in expected_trace(
+                                        [dict(s, savorize=s.get('sweeten')) for s in specs], 'C%d' % i)]
+                                    if derr is not None or strace != swant:
+                                        res['failing'].append({'signature': f'sweeten-trace:{wrap}',
+                                                               'what': f'dumping a C{i} ({wrap}): sweeten hooks ran {strace} / {derr!r}, rule says {swant} (hooks defined on {["C%d" % x for x in sav]}, mix-in at {mixin_at})',
+                                                               'case': {'specs': loadprop._clean(specs), 'dump': 'C%d' % i, 'wrap': wrap}})
                             if regterm is None:
                                 regterm = model.reg_term()
                             sav_terms.append('{| sv_specs := ' + regterm + f'; sv_class := {coq_ustr("C%d" % i)}; sv_expect := ['
@@ -169,6 +188,9 @@ def search(ctx, broken, details, tie_res):
 
 def replay(case):
     import ast
+    if 'dump' in case:
+        r = tie({'tier': 'quick', 'seed': 0})
+        return any(f['case'].get('dump') == case['dump'] and f['case'].get('specs') == case['specs'] for f in r['failing'])
     c = loadcase.run_case(case['specs'], ast.literal_eval(case['type']), case['text'], '')
     trace = [e[1] for e in c.log if e[0] == 'savorize']
     print('  savorize trace:', trace, 'outcome:', c.outcome[0])
